@@ -27,6 +27,28 @@ FOCUS = {
  "C19": "the evaluation helper (mean undiscounted return of the requested number of episodes, each ending at first terminal/truncated state or step cap); cumulative number of environment steps in log records; per-environment statistics",
  "C20": "gait phases stay within [-pi, pi], half a cycle apart, advancing by 2*pi*frequency*dt per control step; desired foot heights within [0, swing height]; velocity command ranges",
 }
+FOCUS3 = {
+ "C01": "the Gymnasium adapter's step/reset (LeraxToGymEnv / GymToLeraxEnv) and reset returning an initial state together with THAT state's own observation; reward reported for exactly the transition taken",
+ "C02": "Unitree G1 or MuJoCo environments: observation dtype / shape / bounds against the declared space, sampled actions accepted, rewards finite float scalars, flags boolean scalars, nothing depending on Python-side state",
+ "C03": "lambda = 1 yields discounted Monte-Carlo returns and lambda = 0 one-step TD errors; several parallel environments are each estimated on their own",
+ "C04": "the environment is driven, and its reward computed, with the action clipped into a bounded action space while the rollout stores the policy's own sample with the value and log-probability for exactly that observation; action masks recorded and applied",
+ "C05": "every iteration adds num_steps transitions per environment to that environment's own buffer; reward and successor observation are those produced for the executed (bounds-clipped) action; policy state restarts after a done step",
+ "C06": "sampling: only stored transitions, never unwritten slots, no transition twice within a batch, also when several per-environment buffers with different fill levels are sampled jointly",
+ "C07": "SAC: the (1 - terminated) factor, the minus alpha*log pi term at a FRESHLY sampled next action, and that the actor loss does not move the critics",
+ "C08": "A2C and REINFORCE objectives (-E[log pi * A] plus weighted value / entropy terms), optional advantage normalisation, approximate KL equal to 0 on on-policy data",
+ "C09": "exactly floor(N/B)*B of the N samples are used per epoch; every epoch of an update visits the data once under a FRESH shuffle (PPO.train / train_epoch)",
+ "C10": "training for total_timesteps performs exactly floor(total_timesteps / (num_envs*num_steps)) iterations, each advancing the iteration counter by one; SAC target critics follow the Polyak rule exactly once per iteration",
+ "C11": "the policy passed in is left untouched; repeating training with the same inputs yields bit-identical parameters; progress bar / logging callback / callback lists as observers",
+ "C12": "off-policy collection with N parallel environments (per-environment replay buffers) equals N independent single-environment collections; advantages never cross environments",
+ "C13": "the Gymnasium and Gymnax adapters reproduce the trajectory of the environment they adapt; every documented wrapper can be constructed; FlattenObservation / ClipObservation advertise the matching space",
+ "C14": "equality holds exactly between spaces of equal structure and parameters and agrees with hashing; Gymnasium round trip (Dict keys in Gymnasium's own order); flatten_sample returns flat_size numbers that determine the sample; canonical() is a member",
+ "C15": "Normal / MultivariateNormalDiag / Bernoulli / Categorical wrappers: entropy, mode within the support, parameters given flat or as a sequence, prob = exp(log_prob)",
+ "C16": "masked Categorical / MultiCategorical / Bernoulli laws: masked actions get probability zero and the remaining probabilities are renormalised proportionally; with a key the policy samples from the same distribution whose log-probability it reports",
+ "C17": "initial-state range of a classic-control environment, MountainCar / ContinuousMountainCar dynamics or limits, or a MuJoCo environment's observation at reset / termination predicate (Hopper, Ant, Humanoid, InvertedPendulum)",
+ "C18": "identical actions, values and log-probabilities after loading for every policy class (SAC and Q policies too), with or without the .eqx suffix",
+ "C19": "log records reach the backend in iteration order with the cumulative number of environment steps; the smoothing factor of the episode statistics; statistics kept separately per environment",
+ "C20": "velocity command and gait frequency within their configured ranges (zero command for the standing tasks); every non-randomised model parameter equals the nominal one; desired foot heights vanish at phase -pi and peak at phase 0",
+}
 T = open("/verif/tools/seed_prompt_template.txt").read()
 for pid, p in sorted(props.items()):
     if only and pid not in only:
@@ -37,6 +59,6 @@ for pid, p in sorted(props.items()):
         subprocess.run(["git", "-C", "/repo", "worktree", "add", "--detach", wt, "HEAD"], check=True, capture_output=True)
     txt = (T.replace("@WT@", wt).replace("@ID@", pid).replace("@TITLE@", p["title"]).replace("@STATEMENT@", p["statement"])
            .replace("@QUANT@", p["quantifier"]["text"]).replace("@FILES@", ", ".join(p["anchors"]["files"]))
-           .replace("@FOCUS@", FOCUS[pid]))
+           .replace("@FOCUS@", (FOCUS3 if tag == "3" else FOCUS)[pid]))
     open(f"/tmp/prompt_{tag}_{pid}.txt", "w").write(txt)
     print(pid, wt)
